@@ -44,8 +44,43 @@ ENTITY e;
   a_op : SET [0:2*maxn] OF STRING;
   a_lit : BAG [3:9] OF STRING;
 END_ENTITY;
+ENTITY grid;
+  axis_count : INTEGER;
+END_ENTITY;
+ENTITY sampled_grid
+  SUBTYPE OF (grid);
+  vals : ARRAY [1:SELF\\grid.axis_count] OF REAL;
+END_ENTITY;
 END_SCHEMA;
 """
+
+
+def multi_use_schema(r, k):
+    """several library schemas and one schema that USEs / REFERENCEs selected items of each"""
+    nlib = r.randint(3, 6)
+    out = []
+    uses = []
+    for i in range(nlib):
+        items = []
+        body = []
+        for j in range(r.randint(2, 4)):
+            if r.random() < 0.4:
+                n = "lt_%d_%d" % (i, j)
+                body.append("  TYPE %s = %s;\n  END_TYPE;" % (n, r.choice(["REAL", "INTEGER", "STRING"])))
+            else:
+                n = "le_%d_%d" % (i, j)
+                body.append("  ENTITY %s;\n    a%d : INTEGER;\n  END_ENTITY;" % (n, j))
+            items.append(n)
+        out.append("SCHEMA lib_%d_%d;\n%s\nEND_SCHEMA;\n" % (k, i, "\n".join(body)))
+        r.shuffle(items)
+        cut = r.randint(1, len(items))
+        uses.append("  USE FROM lib_%d_%d (%s);" % (k, i, ", ".join(items[:cut])))
+        if items[cut:]:
+            uses.append("  REFERENCE FROM lib_%d_%d (%s);" % (k, i, ", ".join(items[cut:])))
+    r.shuffle(uses)
+    out.append("SCHEMA main_%d;\n%s\n  ENTITY product;\n    id : STRING;\n  END_ENTITY;\nEND_SCHEMA;\n" % (k, "\n".join(uses)))
+    return "\n".join(out)
+
 # (declaration, bound number) -> (model type letter, literal value or None, source text)
 BOUND_EXPECT = {
     ("l_ident", 1): ("I", 1, "1"), ("l_ident", 2): ("D", None, "maxn"),
@@ -180,6 +215,9 @@ def main(tier, seed):
         hist["schemas"] += 1
         det_check("g%d" % k, text, ["exp2cxx", "exp2python", "exppp", "schema_scanner"])
     det_check("bounds", BOUND_SCHEMA, ["exp2cxx", "exp2python", "exppp", "schema_scanner"])
+    for k in range(3 if tier == "quick" else 40):
+        hist["schemas"] += 1
+        det_check("multi%d" % k, multi_use_schema(rng(seed, "c12m/%d" % k), k), ["exp2cxx", "exppp", "schema_scanner", "exp2python"])
     shipped = ["data/pdm/pdm_schema_12.exp"] if tier == "quick" else \
               ["data/pdm/pdm_schema_12.exp", "data/ap203/ap203.exp", "data/ifc2x3/IFC2X3_TC1.exp", "data/ap227/ap227.exp", "data/ap242/242_n8324_mim_lf.exp"]
     for rel in shipped:
